@@ -298,6 +298,44 @@ def stmt_is(stmt, pattern: str, env0=None) -> bool:
     return len(pat) == 1 and match(pat[0], stmt, dict(env0 or {}))
 
 
+def expr_is(node, pattern: str, env0=None) -> bool:
+    """does the expression ``node`` itself match the (expression) pattern?"""
+    kind, pat = compile_pat(pattern)
+    return kind == "expr" and node is not None and match(pat, node, dict(env0 or {}))
+
+
+def returns_are(model, fd, table: dict) -> bool:
+    """``table``: {((test pattern, polarity), ...): value pattern}.  True when the
+    returns of ``fd`` -- helpers inlined, locals propagated, early returns and
+    if/else treated alike (model.normal, model.returns_by_condition) -- are exactly
+    these, each under exactly these conditions (in any nesting order)."""
+    got = model.returns_by_condition(model.normal(fd))
+    if got is None or len(got) != len(table):
+        return False
+    todo = dict(table)
+    for conds, val in got:
+        hit = None
+        for pc, pv in todo.items():
+            if len(pc) != len(conds) or not expr_is(val, pv):
+                continue
+            rest = list(conds)
+            ok = True
+            for (pt, ppol) in pc:
+                j = next((i for i, (t, pol) in enumerate(rest)
+                          if pol == ppol and expr_is(ast.parse(t, mode="eval").body, pt)), None)
+                if j is None:
+                    ok = False
+                    break
+                rest.pop(j)
+            if ok:
+                hit = pc
+                break
+        if hit is None:
+            return False
+        del todo[hit]
+    return not todo
+
+
 _KNOWN_CALLABLES = {"constantdict", "flatten", "OrderedSet", "FrozenOrderedSet", "chain",
                     "Counter", "defaultdict", "cast", "replace", "fields"}
 
